@@ -43,6 +43,9 @@ def run(chk):
     S.check_hermite(chk, lib, 'R16.3', 'R16.3', 'R16.3')
     chk.rule('R16.4', "lanes holding different polynomials: with per-lane (Individual) boundaries every lane is solved with its OWN boundary element (dispatcher rules shared with C08)")
     S.check_dispatcher(chk, lib, 'R16.4')
+    # ... and the boundary value reaches the dispatcher at all: calc_coefficients hands each public boundary kind to one solve of its own kind and an Individual array,
+    # unchanged, to the per-lane dispatcher (round 8: a `mem::discriminant` shortcut in calc_coefficients gave every all-Mixed lane the boundary of lane 0)
+    S.check_dispatch(chk, lib, 'R16.4', 'R16.4')
     # extrapolated evaluation is the same expression (C06) - restated here for the spline
     base = run_spline(lib, 'Yes', 'inside')
     for rel in ('below', 'above'):
